@@ -157,10 +157,14 @@ func Observe(name string, v any)           {}
 func Log(format string, args ...any)       {}
 func CheckLeaks()                          {}
 func Domain(n int)                         {}
-func Yield()                               { runtime.Gosched() }
-func PoolNondet()                          {}
-func SetGOMAXPROCS(n int)                  {}
-func ReadOnly(name string, p any)          {}
+
+// RealReference: under gosym, interpret the real reference engine instead of the counting model.
+func RealReference() {}
+
+func Yield()                      { runtime.Gosched() }
+func PoolNondet()                 {}
+func SetGOMAXPROCS(n int)         {}
+func ReadOnly(name string, p any) {}
 
 // Counter reads an executor-maintained counter; natively only "faults-fired" is kept.
 func Counter(name string) int {
